@@ -227,7 +227,7 @@ int main(int argc, char** argv) {
     const bool thorough = vh::g.thorough();
     uint64_t idx = 0;
     //hilbert: lengths 3..4096 (quick: all to 300 + a residue class)
-    const int full = thorough ? 1200 : 300;
+    const int full = thorough ? 4096 : 400;
     const int residue = int(vh::rng_for("residue").below(16));
     for (int n = 3; n <= 4096; ++n) {
         if (!(n <= full || n % 16 == residue || (thorough && n % 4 == 1))) {
@@ -237,9 +237,9 @@ int main(int argc, char** argv) {
             continue;
         }
         vh::Rng r = vh::rng_for("hilbert", n);
-        const int kinds = (n <= 600) ? 6 : 2;
+        const int kinds = (n <= 600 || thorough) ? 6 : 2;
         for (int k = 0; k < kinds; ++k) {
-            check_hilbert(n, (n <= 600) ? k : int(r.below(6)), r);
+            check_hilbert(n, (kinds == 6) ? k : int(r.below(6)), r);
         }
         vh::obs_add("hilbert_lengths");
     }
@@ -248,13 +248,17 @@ int main(int argc, char** argv) {
     {
         std::vector<int> flens = {31, 32, 51, 64, 101, 128, 201, 300, 401};
         std::vector<double> tws = {0.005, 0.01, 0.02, 0.05, 0.1};
+        if (thorough) {
+            flens = {21, 31, 32, 41, 51, 64, 75, 101, 128, 151, 201, 256, 300, 401, 501, 601};
+            tws = {0.005, 0.0075, 0.01, 0.015, 0.02, 0.03, 0.05, 0.075, 0.1};
+        }
         for (int fl : flens) {
             for (double tw : tws) {
                 if (!vh::mine(idx++)) {
                     continue;
                 }
                 vh::Rng r = vh::rng_for("hf", uint64_t(fl) * 1000 + uint64_t(tw * 10000));
-                check_hilbert_filter(fl, tw, r, thorough ? 24 : 8);
+                check_hilbert_filter(fl, tw, r, thorough ? 48 : 12);
             }
         }
     }
@@ -263,7 +267,7 @@ int main(int argc, char** argv) {
         g_tuner_cap = thorough ? 2000000 : 400000;
         std::vector<int> fss = {8, 9, 16, 100, 1000, 8000, 44100, 65537, 96000, 100000, 192000, 1000000};
         for (int fs : fss) {
-            const int nf = thorough ? 8 : 4;
+            const int nf = thorough ? 48 : 8;
             for (int j = 0; j < nf; ++j) {
                 if (!vh::mine(idx++)) {
                     continue;
